@@ -122,7 +122,7 @@ type gctx struct {
 	r      *vproto.Rng
 	tol    float64
 	dyadic bool
-	// set once perturb() has run: later displacements must exceed tol + 57/64 tol
+	// set once perturb() has run: later displacements must exceed tol + 63/64 tol
 	perturbed bool
 	cell      int
 	ox, oy float64
@@ -305,8 +305,18 @@ func (g *gctx) base0(kind, depth int) *node {
 
 // ---- transformations -------------------------------------------------------------------
 
-// perturbation strictly inside the tolerance: |d| <= 57/64 tol
-func (g *gctx) small() float64 { return float64(g.r.Range(-57, 57)) / 64 * g.tol }
+// perturbation strictly inside the tolerance: |d| <= 63/64 tol on dyadic grids (exact arithmetic),
+// |d| <= 57/64 tol otherwise (rounding of a-b stays far from the comparison)
+func (g *gctx) small() float64 {
+	m := 57
+	if g.dyadic {
+		m = 63
+		if g.r.Intn(4) == 0 { // extremes often
+			return float64(63*(1-2*g.r.Intn(2))) / 64 * g.tol
+		}
+	}
+	return float64(g.r.Range(-m, m)) / 64 * g.tol
+}
 
 func (g *gctx) perturb(n *node) {
 	g.perturbed = true
@@ -616,6 +626,8 @@ func corpus(out *bufio.Writer) {
 	emit(out, "edge:?", 0.5, geom.Polygon{{P(1, 1), P(2, 2), P(0, 0)}}, geom.Polygon{{P(1, 1), P(2, 2), P(0, 0)}})
 	emit(out, "edge:?", 0.5, geom.Polygon{{P(1, 1), P(2, 2), P(3, 0), P(0, 0)}}, geom.Polygon{{P(1, 1), P(2, 2), P(3, 0), P(0, 0)}})
 	emit(out, "edge:?", 0.5, geom.Polygon{{P(1, 1), P(2, 2), P(3, 0), P(1, 1)}}, geom.Polygon{{P(1, 1), P(2, 2), P(3, 0), P(9, 9)}})
+	emit(out, "edge:?", 0.5, geom.Polygon{{P(1, 1), P(0, 0)}}, geom.Polygon{{P(1, 1), P(5, 5)}})
+	emit(out, "edge:?", 0.5, geom.Polygon{{P(1, 1), P(2, 2), P(0, 0)}}, geom.Polygon{{P(2, 2), P(1, 1), P(7, 7)}})
 	emit(out, "edge:?", 0.5, geom.MultiPoint{}, geom.MultiPoint{})
 	emit(out, "edge:?", 0.5, geom.LineString{}, geom.LineString{})
 	emit(out, "edge:?", 0.5, geom.MultiLineString{}, geom.MultiLineString{})
@@ -639,7 +651,11 @@ func corpus(out *bufio.Writer) {
 func gen(seed uint64, tier string) {
 	out := bufio.NewWriterSize(os.Stdout, 1<<20)
 	defer out.Flush()
-	r := vproto.NewRng(seed)
+	// vproto.NewRng(seed) starts seed k+1 one draw after seed k (same stream, shifted); scramble the
+	// seed first so that different VERIF_SEEDs give unrelated streams
+	z := (seed + 0x632BE59BD9B4E019) * 0xD1342543DE82EF95
+	z ^= z >> 29
+	r := vproto.NewRng(z*0xBF58476D1CE4E5B9 + seed)
 	corpus(out)
 	n := 2500
 	if tier == "thorough" {
@@ -695,6 +711,29 @@ func gen(seed uint64, tier string) {
 			emit(out, "dup:?", g.tol, b.geom(), c.geom())
 			return false
 		})
+		// tiny / unclosed rings and lines (0..3 vertices from a 2x2 grid): no expectation from the
+		// statement, judged by model and specification
+		if it%4 == 0 {
+			tiny := func() []geom.Point {
+				n := g.r.Intn(4)
+				ps := make([]geom.Point, n)
+				for i := range ps {
+					ps[i] = geom.Point{X: g.ox + float64(g.r.Intn(2))*4*g.tol, Y: g.oy + float64(g.r.Intn(2))*4*g.tol}
+				}
+				return ps
+			}
+			mk := func() geom.Polygon {
+				pg := geom.Polygon{}
+				for i, c := 0, g.r.Range(1, 2); i < c; i++ {
+					pg = append(pg, tiny())
+				}
+				return pg
+			}
+			a1, b1 := mk(), mk()
+			emit(out, "edge:?", g.tol, a1, b1)
+			emit(out, "edge:?", g.tol, geom.MultiPolygon{a1, b1}, geom.MultiPolygon{b1, a1})
+			emit(out, "edge:?", g.tol, geom.MultiLineString{tiny(), tiny()}, geom.MultiLineString{tiny(), tiny()})
+		}
 		// an unrelated geometry (fresh cells) of the same or another type
 		o := g.base(r.Intn(8), 1)
 		emit(out, "other:?", g.tol, ag, o.geom())
